@@ -583,6 +583,7 @@ func cmdCheck(args []string) int {
 	}
 
 	var results []*HarnessResult
+	validatedOnce := false
 	exit := 0
 	totalViol := 0
 	var allAssumptions []string
@@ -686,9 +687,7 @@ func cmdCheck(args []string) int {
 				totalViol++
 				fmt.Printf("VIOLATION property=%s replay=%s\n", id, rdir)
 				fmt.Printf("  harness=%s kind=%s msg=%q\n  model: %s\n  at:\n%s", hc.Func, v.Kind, v.Msg, modelString(v.Model), indent(v.Stack))
-				if exit == 0 {
-					exit = 1
-				}
+				exit = 1 // a confirmed violation outranks an earlier harness's inconclusive result
 			} else {
 				res.Inconclusive = append(res.Inconclusive, "ENCODING-MISMATCH: counterexample did not replay: "+l1+" / "+l2)
 			}
@@ -703,7 +702,12 @@ func cmdCheck(args []string) int {
 		}
 		// translator validation: completed paths' models are pushed through the natively compiled
 		// harness; the real code must take them without any assertion failing
-		if hc.Native && realViol == 0 && (tier == "thorough" || os.Getenv("VERIF_VALIDATE") != "") {
+		// (quick tier: one sample of the first native harness of the check; thorough: up to three per harness)
+		if hc.Native && realViol == 0 && (tier == "thorough" || os.Getenv("VERIF_VALIDATE") != "" || !validatedOnce) {
+			if tier != "thorough" && os.Getenv("VERIF_VALIDATE") == "" && len(e.sampleRecs) > 1 {
+				e.sampleRecs = e.sampleRecs[:1]
+			}
+			validatedOnce = true
 			v, bad := validateSamples(verifDir, repo, id, &cc, &hc, tier, e)
 			res.Validated = v
 			for _, m := range bad {
